@@ -95,6 +95,21 @@ def check_solution(ctx, sol, system, t0, dt, rows, key, rep, fielddim, uniform=T
                         ctx.violation(key + f":iterator-field:{name}", f"record {i}.{name} differs from row {i} for {rep['case']}", rep)
                         ok = False
                         break
+    # two iterations over the same solution that are alive at the same time are independent of each other
+    try:
+        import itertools
+        pairs = list(zip(sol, itertools.islice(sol, 1, None)))
+        if len(pairs) != rows - 1 or any(a.t != t[i] or b.t != t[i + 1] for i, (a, b) in enumerate(pairs)):
+            ctx.violation(key + ":iterator-concurrent", f"zip(sol, islice(sol, 1, None)) yields {len(pairs)} pairs with times {[(a.t, b.t) for a, b in pairs[:3]]} for {rows} instants "
+                          f"(consecutive records expected) for {rep['case']}", rep)
+            ok = False
+        nested = sum(1 for _a in sol for _b in sol) if rows <= 12 else rows * rows
+        if nested != rows * rows:
+            ctx.violation(key + ":iterator-concurrent", f"a nested loop over the solution visits {nested} combinations of {rows} x {rows} for {rep['case']}", rep)
+            ok = False
+    except Exception as ex:
+        ctx.violation(key + ":iterator-concurrent:raises", f"iterating twice at the same time raised {type(ex).__name__}: {ex} for {rep['case']}", rep)
+        ok = False
     # save / load
     path = os.path.join(ctx.scratch, "sol.pkl")
     try:
@@ -223,15 +238,15 @@ def run(ctx):
             if nonconv and len(rr.sol.t) < n + 1 and rr.warn_texts:
                 n_notjudged += 1              # announced truncation: "unless the run was truncated"
                 continue
+            if sn == "Moreau" and len(kept) < 2 and (not kept or len(kept[0].t) != len(rr.sol.t)):
+                kept.append(rr.sol)             # (for the save / load session below, whatever the verdict on its rows)
             if check_solution(ctx, rr.sol, system, t0, dt, n + 1, key, rep, fielddim):
                 nok += 1
-                if sn == "Moreau" and len(kept) < 2 and (not kept or len(kept[0].t) != len(rr.sol.t)):
-                    kept.append(rr.sol)
             seen.add((sn, tick, st["t0"], st["t1"], st["dt"]))
             if len(samples) < 3:
                 samples.append(case)
     nsess = saveload_session(ctx, kept[0], kept[1]) if len(kept) == 2 else 0
-    if not nsess:
+    if not nsess and not ctx.violations:
         raise tlc.MachineryError("no two solutions for the save/load session")
     # 2. truncated runs: BackwardEuler returns the accepted steps when the first Newton solve of step m+1 fails
     ntr = 0
@@ -272,7 +287,8 @@ def run(ctx):
     sysfree = {}
     for st in complete:
         long_run = st["dt"] >= 100           # the LongRuns family: fine ticks of 1e-6
-        for tick in (["0.000001"] if long_run else TICKS):
+        late_run = st["t0"] >= 10 ** 6       # ... and its late initial times, in ticks of 1e-3
+        for tick in (["0.001"] if late_run else ["0.000001"] if long_run else TICKS):
             t0, t1, dt = lit(st["t0"], tick), lit(st["t1"], tick), lit(st["dt"], tick)
             n = -(-(st["t1"] - st["t0"]) // st["dt"])
             if t0 not in sysfree:
@@ -296,8 +312,8 @@ def run(ctx):
                                   f"t0 + {n} dt (tick {tick}, ticks {st['t0']},{st['t1']},{st['dt']})", {"case": {"solver": sn, "t0": t0, "t1": t1, "dt": dt}})
     ctx.log(f"[C20] {ngrid} grids checked at construction over the whole lattice x {len(TICKS)} tick values")
     # 2d. long runs carried out: a thousand steps, the final time just before / on / just after a grid point
-    for st in [s_ for s_ in complete if s_["dt"] >= 100 and -(-(s_["t1"] - s_["t0"]) // s_["dt"]) <= 1100]:
-        tick = "0.000001"
+    for st in [s_ for s_ in complete if (s_["dt"] >= 100 or s_["t0"] >= 10 ** 6) and -(-(s_["t1"] - s_["t0"]) // s_["dt"]) <= 1100]:
+        tick = "0.001" if st["t0"] >= 10 ** 6 else "0.000001"
         t0, t1, dt = lit(st["t0"], tick), lit(st["t1"], tick), lit(st["dt"], tick)
         n = -(-(st["t1"] - st["t0"]) // st["dt"])
         system = S.sys_free_mass(t0=t0)
